@@ -141,6 +141,7 @@ Definition mgr_ok (x : mgr_case) : bool :=
 Record pass_case := {
   pc_pw : bytes; pc_salt : bytes; pc_digest : bytes; pc_n : Z; pc_r : Z; pc_p : Z;
   pc_marshalled : bytes;             (* the real SecretKey.Marshal() *)
+  pc_zero_ok : bool;                 (* after Zero the key bytes are all zero *)
   pc_exact : N;                      (* DeriveKey(creating passphrase) after Zero *)
   pc_restart : N;                    (* same on a fresh SecretKey after Unmarshal *)
   pc_near : list (bytes * N * N);    (* near miss, class after Zero, class after Unmarshal *)
@@ -169,7 +170,8 @@ Definition pass_ok (x : pass_case) : bool :=
        match unmarshal fresh_sk (marshal sk) with
        | Err _ => false
        | Ok sk0 =>
-         (cls_derive (c_derive_key (sk_zero sk) (pc_pw x)) =? pc_exact x)
+         Bool.eqb (forallb (fun b => b =? 0) (sk_key (sk_zero sk))) (pc_zero_ok x)
+         && (cls_derive (c_derive_key (sk_zero sk) (pc_pw x)) =? pc_exact x)
          && (cls_derive (c_derive_key sk0 (pc_pw x)) =? pc_restart x)
          && forallb (fun nc =>
               let '(pw', c1, c2) := nc in
